@@ -68,6 +68,9 @@ func c16(tier string) []*explore.Scenario {
 	out = append(out, c16RPC("payloads", true, 0))
 	out = append(out, c16Burst(12, 0), c16Burst(50, 0), c16Burst(24, 1))
 	out = append(out, withoutDisconnectCallback(pickScenarios(out, "C16/opseq/", "C16/reattach/after-old-fails")...)...)
+	for _, kind := range []string{"stuck-writer-then-failing-reader", "both-while-forwarder-busy"} {
+		out = append(out, c17DoubleFault("C16", kind, 2))
+	}
 	return out
 }
 
